@@ -22,7 +22,9 @@ C = {
          "fault injection at every action call index (singles and pairs) through the real LLMRails in both Colang versions: generate returns, reply is refusal / "
          "internal error, next turn has all rails active", "inspect predicates, Chain/Runnable methods and logging modelled as unknown code / uninterpreted"),
  "C04": ("_compute_arguments_dict_matching_score returns a positive score exactly when the statement's recursive partial-match predicate holds, and a score in (0,1] "
-         "then (all inputs, all nestings; recursion through its own contract, three loops by invariant, termination by rank)",
+         "then (all inputs, all nestings; recursion through its own contract, three loops by invariant, termination by rank); "
+         "_compute_event_comparison_score, whatever the argument matcher answers: no positive score for an external event of another name, for an "
+         "event of another action instance than the one the statement carries, or across Finished / Failed / Started flow events",
          "name / instance / priority rules of _compute_event_comparison_score", "floats are reals; regex engine and comparison operators uninterpreted; "
          "statement-silent zone (1/True/1.0, regex vs non-string) excluded by the `typed` precondition"),
  "C05": (None, "competing flows through the real interpreter with every tie-break outcome enumerated (random.choice scripted) + contract monitor on "
